@@ -639,6 +639,9 @@ func (w *c01World) oneOp() {
 		return
 	}
 	if len(w.openAuctions1()) > 0 && r.Chance(20) {
+		if r.Chance(35) && w.windOp1() {
+			return
+		}
 		w.bidOp1(user)
 		return
 	}
@@ -1050,6 +1053,60 @@ func (w *c01World) liquidate(user sdk.AccAddress, v vaulttypes.Vault, gen1 bool,
 	} else {
 		w.state()
 	}
+}
+
+// windOp1: under emergency shutdown the first-generation auction module winds down auctions that have run out
+// (x/auction/keeper/dutch.go:517-640). Where the bids have recovered at least the principal, the principal is burnt, the rest
+// goes to the collector, the unsold collateral moves to the emergency redemption pool and the seized vault leaves the books
+// — for the vault ledger the same step as a normal close (`settle1`). Where less than the principal was recovered the module
+// re-creates a vault for the owner instead; that branch is not in the vault model, so an app is wound down here only when
+// every run-out auction of it is of the first kind.
+func (w *c01World) windOp1() bool {
+	for _, app := range w.apps {
+		st, f := w.app.EsmKeeper.GetESMStatus(w.ctx, app)
+		if !f || !st.Status {
+			continue
+		}
+		type rec struct{ orig uint64 }
+		var due []rec
+		ok := true
+		for _, a := range w.app.AuctionKeeper.GetDutchAuctions(w.ctx, app) {
+			if !w.ctx.BlockTime().After(a.EndTime) {
+				continue
+			}
+			lv, found := w.app.LiquidationKeeper.GetLockedVault(w.ctx, a.AppId, a.LockedVaultId)
+			if !found || a.InflowTokenCurrentAmount.Amount.LT(lv.AmountOut) {
+				ok = false
+				break
+			}
+			due = append(due, rec{lv.OriginalVaultId})
+		}
+		if !ok {
+			w.tr.Count("op:wind1:skipped-return-branch")
+			continue
+		}
+		if len(due) == 0 {
+			continue
+		}
+		_ = w.app.AuctionKeeper.RestartDutch(w.ctx, app)
+		n := 0
+		for _, d := range due {
+			still := false
+			for _, l := range w.app.LiquidationKeeper.GetLockedVaults(w.ctx) {
+				if l.OriginalVaultId == d.orig && l.AppId == app {
+					still = true
+				}
+			}
+			if !still {
+				w.tr.Line("vault.msg", "settle1", u(d.orig), "-", "-", "-", "-", "esm=1;past=0;brk=0;pin=-;pout=-;iota=0", "ok")
+				n++
+			}
+		}
+		w.tr.Count(fmt.Sprintf("op:wind1:closed=%d", minInt(n, 3)))
+		w.stateKind("vault.state.settle1")
+		return true
+	}
+	return false
 }
 
 // ---- emergency shutdown (x/esm) ----------------------------------------------------------------------------------
